@@ -1,0 +1,121 @@
+// Copyright 2026 The osvbng Authors
+// Licensed under the GNU General Public License v3.0 or later.
+// SPDX-License-Identifier: GPL-3.0-or-later
+
+package opdb
+
+import (
+	"context"
+	"sync"
+)
+
+// OrderedWriter makes the writes of one (namespace, key) reach the Store in
+// the order they were issued, whatever goroutine carries them out.
+//
+// Session checkpoints are written off the packet path (PutAsync), while the
+// checkpoint of a released session is deleted synchronously. Without
+// ordering, a Put that is still in flight when the Delete runs lands after
+// it and the released session is restored on the next restart; two Puts of
+// one session can likewise land in the wrong order and leave a stale image.
+//
+// Every write takes a per-key sequence number when it is issued and waits
+// for its turn before touching the Store. A Put that a later-issued Delete
+// is going to remove anyway is skipped. Writes of different keys do not
+// wait for each other.
+type OrderedWriter struct {
+	store Store
+
+	mu   sync.Mutex
+	keys map[string]*orderedKey
+}
+
+type orderedKey struct {
+	turn      *sync.Cond // on OrderedWriter.mu
+	next      uint64     // sequence number of the next write to be issued
+	serving   uint64     // sequence number whose turn it is
+	deleteSeq uint64     // 1 + sequence number of the latest issued Delete
+}
+
+func NewOrderedWriter(store Store) *OrderedWriter {
+	return &OrderedWriter{store: store, keys: make(map[string]*orderedKey)}
+}
+
+// issue reserves the next slot in the key's write order.
+func (w *OrderedWriter) issue(id string, isDelete bool) (*orderedKey, uint64) {
+	w.mu.Lock()
+	defer w.mu.Unlock()
+	k := w.keys[id]
+	if k == nil {
+		k = &orderedKey{}
+		k.turn = sync.NewCond(&w.mu)
+		w.keys[id] = k
+	}
+	seq := k.next
+	k.next++
+	if isDelete {
+		k.deleteSeq = seq + 1
+	}
+	return k, seq
+}
+
+// perform waits for the slot's turn, runs fn unless the write is obsolete,
+// and hands the turn to the next slot.
+func (w *OrderedWriter) perform(id string, k *orderedKey, seq uint64, isDelete bool, fn func() error) error {
+	w.mu.Lock()
+	for k.serving != seq {
+		k.turn.Wait()
+	}
+	obsolete := !isDelete && seq+1 < k.deleteSeq
+	w.mu.Unlock()
+
+	var err error
+	if !obsolete {
+		err = fn()
+	}
+
+	w.mu.Lock()
+	k.serving++
+	if k.serving == k.next {
+		delete(w.keys, id)
+	} else {
+		k.turn.Broadcast()
+	}
+	w.mu.Unlock()
+	return err
+}
+
+func orderedID(namespace, key string) string { return namespace + "\x00" + key }
+
+// Put writes value after every earlier-issued write of the same key.
+func (w *OrderedWriter) Put(ctx context.Context, namespace, key string, value []byte) error {
+	id := orderedID(namespace, key)
+	k, seq := w.issue(id, false)
+	return w.perform(id, k, seq, false, func() error {
+		return w.store.Put(ctx, namespace, key, value)
+	})
+}
+
+// PutAsync takes the write's place in the key's order now and carries it
+// out on its own goroutine. onErr (may be nil) receives a Store error.
+func (w *OrderedWriter) PutAsync(ctx context.Context, namespace, key string, value []byte, onErr func(error)) {
+	id := orderedID(namespace, key)
+	k, seq := w.issue(id, false)
+	go func() {
+		err := w.perform(id, k, seq, false, func() error {
+			return w.store.Put(ctx, namespace, key, value)
+		})
+		if err != nil && onErr != nil {
+			onErr(err)
+		}
+	}()
+}
+
+// Delete removes the key after every earlier-issued write of it; Puts that
+// were issued earlier and have not started yet are dropped.
+func (w *OrderedWriter) Delete(ctx context.Context, namespace, key string) error {
+	id := orderedID(namespace, key)
+	k, seq := w.issue(id, true)
+	return w.perform(id, k, seq, true, func() error {
+		return w.store.Delete(ctx, namespace, key)
+	})
+}
